@@ -53,9 +53,10 @@ static NvmVerifyResult verify_structure(const NvmModule *mod) {
         if (fn->code_offset > mod->code_size)
             return fail("function[%u] code_offset %u > code_size %u",
                         i, fn->code_offset, mod->code_size);
-        if (fn->code_offset + fn->code_length > mod->code_size)
-            return fail("function[%u] code_offset+length %u > code_size %u",
-                        i, fn->code_offset + fn->code_length, mod->code_size);
+        /* code_offset <= code_size was checked above; do not add (32-bit wrap) */
+        if (fn->code_length > mod->code_size - fn->code_offset)
+            return fail("function[%u] code_offset %u + code_length %u > code_size %u",
+                        i, fn->code_offset, fn->code_length, mod->code_size);
         if (fn->name_idx >= mod->string_count)
             return fail("function[%u] name_idx %u >= string_count %u",
                         i, fn->name_idx, mod->string_count);
